@@ -20,15 +20,75 @@ fn err_kind(e: &M2Error) -> String {
     k
 }
 
+thread_local! {
+    static SAVE_DIR: tempfile::TempDir = tempfile::Builder::new().prefix("vchk-c13-save").tempdir_in(std::env::temp_dir()).expect("tempdir");
+}
+
+/// The value is written a second time into a sink that already holds a longer file, and (one case in
+/// eight, by content) saved with the crate's `save(path)` over a longer existing file: the stream
+/// position / the file must give exactly the bytes of the write into an empty sink.
+macro_rules! reused_sink_checks {
+    ($entry:expr, $val:expr, $fresh:expr, $kind:expr) => {{
+        let fresh: &Vec<u8> = $fresh;
+        let reused = guard($entry, || {
+            let mut c = Cursor::new(vec![0xEEu8; fresh.len() + 1231]);
+            $val.write(&mut c).map(|_| {
+                let pos = c.position() as usize;
+                (pos, c.into_inner())
+            })
+        })?;
+        match reused {
+            Ok((pos, buf)) => {
+                // the M2 writer seeks back to patch its header: the end of the file is the largest
+                // position written, which for a correct writer is the length of the fresh file
+                let end = buf.iter().rposition(|&b| b != 0xEE).map(|i| i + 1).unwrap_or(0).max(pos);
+                if buf.len() < fresh.len() || buf[..fresh.len()] != fresh[..] || end > fresh.len() {
+                    return Err(Fail::new(
+                        format!("{}-write-depends-on-what-the-sink-held", $kind),
+                        format!("writing into a sink that holds {} older bytes gives a file that differs from the {}-byte file written into an empty sink (stream left at {pos}, last byte written at {end})", fresh.len() + 1231, fresh.len()),
+                    ));
+                }
+            }
+            Err(e) => return Err(Fail::new(format!("{}-write-error:reused-sink", $kind), e.to_string())),
+        }
+        if fresh.iter().fold(0u32, |a, &b| a.wrapping_mul(31).wrapping_add(b as u32)) % 8 == 0 {
+            let path = SAVE_DIR.with(|d| d.path().join(format!("{}-{:?}.bin", $kind, std::thread::current().id())));
+            let mut old = vec![0xEEu8; fresh.len() + 777];
+            old[..4].copy_from_slice(b"OLD!");
+            std::fs::write(&path, &old).map_err(|e| Fail::new("harness:io", e.to_string()))?;
+            match guard($entry, || $val.save(&path))? {
+                Ok(()) => {
+                    let got = std::fs::read(&path).map_err(|e| Fail::new("harness:io", e.to_string()))?;
+                    let _ = std::fs::remove_file(&path);
+                    if &got != fresh {
+                        return Err(Fail::new(
+                            format!("{}-save-over-existing-file-differs", $kind),
+                            format!("save() over an existing {}-byte file leaves {} bytes, the value serialises to {} bytes", old.len(), got.len(), fresh.len()),
+                        ));
+                    }
+                }
+                Err(e) => {
+                    let _ = std::fs::remove_file(&path);
+                    return Err(Fail::new(format!("{}-save-error", $kind), e.to_string()));
+                }
+            }
+        }
+    }};
+}
+
 fn fail(sig: String, msg: String) -> CaseResult {
     Err(Fail::new(sig, msg))
 }
 
 pub fn write_model(entry: &str, m: &M2Model) -> Result<Result<Vec<u8>, M2Error>, Fail> {
-    guard(entry, || {
+    let r = guard(entry, || {
         let mut c = Cursor::new(Vec::new());
         m.write(&mut c).map(|_| c.into_inner())
-    })
+    })?;
+    if let Ok(fresh) = &r {
+        reused_sink_checks!(entry, m, fresh, "m2");
+    }
+    Ok(r)
 }
 
 fn first_diff(a: &[u8], b: &[u8]) -> Option<usize> {
@@ -506,10 +566,14 @@ pub fn build_skin(s: &SkinSpec) -> SkinFile {
 }
 
 fn write_skin(entry: &str, s: &SkinFile) -> Result<Result<Vec<u8>, M2Error>, Fail> {
-    guard(entry, || {
+    let r = guard(entry, || {
         let mut c = Cursor::new(Vec::new());
         s.write(&mut c).map(|_| c.into_inner())
-    })
+    })?;
+    if let Ok(fresh) = &r {
+        reused_sink_checks!(entry, s, fresh, "skin");
+    }
+    Ok(r)
 }
 
 fn parse_skin_typed(b: &[u8], new_layout: bool) -> Result<Result<SkinFile, M2Error>, Fail> {
@@ -782,10 +846,14 @@ pub fn build_anim(s: &AnimSpec) -> AnimFile {
 }
 
 fn write_anim(entry: &str, a: &AnimFile) -> Result<Result<Vec<u8>, M2Error>, Fail> {
-    guard(entry, || {
+    let r = guard(entry, || {
         let mut c = Cursor::new(Vec::new());
         a.write(&mut c).map(|_| c.into_inner())
-    })
+    })?;
+    if let Ok(fresh) = &r {
+        reused_sink_checks!(entry, a, fresh, "anim");
+    }
+    Ok(r)
 }
 
 pub fn check_anim(s: &AnimSpec) -> Result<Option<String>, Fail> {
